@@ -175,8 +175,45 @@ def check_exclude_before_destroy(ctx, cfg):
                 ctx.sample({"rule": rule, "fn": b["key"], "cfg": cfg, "detail": det})
                 n += 1
         elif by_value and dips:
+            # a by-value method: `self` is a local, and while the unwind path of the destroying call still drops it, the owner's Drop runs after
+            # a destructor that unwinds - the same exclude-before-destroy obligation, read off the local's fields
+            from ..ownership import unwind_drops
+            from ..absint import State as _St
+            N = a.tenv.length([x for x in st["args"] if x.get("k") != "region"][-1])
+            T = [x for x in st["args"] if x.get("k") != "region"][0]
+            S = a.tenv.size(T)
             for i, c in enumerate(dips):
-                ctx.ob(rule, "%s#drop_in_place#%d" % (b["key"], i), UNKNOWN, "drop_in_place inside a by-value method: not a recognised idiom", at=c.at, cfg=cfg, frozen=False)
+                dropped, _hu = unwind_drops(a, c)
+                if 1 not in dropped:
+                    ctx.ob(rule, "%s#drop_in_place#%d" % (b["key"], i), PROVED, "by-value method: `self` is not dropped on the unwind path of this drop_in_place (already disarmed)", at=c.at, cfg=cfg)
+                    n += 1
+                    continue
+                stt = _St(c.mem, c.facts)
+
+                def fld(name, stt=stt):
+                    v = a.read_cell(stt, ("local", 1), (info["names"].index(name),), {"k": "prim", "n": "usize"})
+                    return v[1] if v is not None and v[0] == "I" else None
+                lo, hi = DROP_SPEC[tail](fld, N) if tail in DROP_SPEC else (None, None)
+                arrv = a.read_cell(stt, ("local", 1), (info["array"],), None) if info["array_is_ref"] else None
+                if arrv is not None and arrv[0] == "P" and not arrv[2].t:
+                    sb = arrv[1]
+                elif arrv is not None and arrv[0] == "V" and len(arrv) == 3:
+                    sb = ("obj", arrv[1:])   # the pointee of a reference held as an opaque value
+                else:
+                    sb = ("field", ("local", 1), (info["array"],))
+                p = c.args[0]
+                ok = False
+                if p[0] == "P" and p[1] == sb and p[3] is not None and lo is not None and hi is not None:
+                    pf = a.poly_facts(c.facts)
+                    d_lo, d_hi = p[2], p[2] + p[3] * S
+                    ok = prove((">=", lo * S - d_hi), pf) or prove((">=", d_lo - hi * S), pf)
+                    det = "by-value method, `self` still dropped if this call unwinds: drop_in_place of bytes [%r, %r) while the owner claims elements [%r, %r): disjoint=%s" % (d_lo, d_hi, lo, hi, ok)
+                    if not ok:
+                        det = "a destructor that unwinds here leaves the range claimed by `self`, whose Drop would release it again; " + det
+                else:
+                    det = "by-value method, `self` still dropped if this call unwinds: drop_in_place target %s is not a range of the owner's storage / the owner has no range specification" % vstr(p)
+                ctx.ob(rule, "%s#drop_in_place#%d" % (b["key"], i), ok, det, at=c.at, cfg=cfg)
+                n += 1
     return n
 
 
